@@ -70,8 +70,8 @@ Lemma xml_deser_safe soft A rq h :
   wf_app A = true -> xml_request_ok rq -> xml_decode_head A rq = Ret h ->
   safe (xml_deserialize soft A (fst h) (snd h)).
 Proof.
-  intros WF Hr E. destruct h as [c body]. unfold xml_deserialize.
-  apply from_element_safe; auto. simpl. apply Nat.ltb_lt.
+  intros WF Hr E. destruct h as [m body]. unfold xml_deserialize.
+  apply from_element_safe; auto. apply ty_wf_top_of_wf.
   destruct (xml_decode_head_safe A rq WF Hr) as [_ Hl]. eapply Hl; eauto.
 Qed.
 
@@ -95,8 +95,8 @@ Lemma soap_deser_safe ns soft A rq h :
   wf_app A = true -> soap_request_ok rq -> soap_decode_head ns A rq = Ret h ->
   safe (soap_deserialize soft A (fst h) (snd h)).
 Proof.
-  intros WF Hr E. destruct h as [c body]. unfold soap_deserialize.
-  apply from_element_safe; auto. simpl. apply Nat.ltb_lt.
+  intros WF Hr E. destruct h as [m body]. unfold soap_deserialize.
+  apply from_element_safe; auto. apply ty_wf_top_of_wf.
   destruct (soap_decode_head_safe ns A rq WF Hr) as [_ Hl]. eapply Hl; eauto.
 Qed.
 Theorem soap_total ns soft A rq :
@@ -120,7 +120,7 @@ Lemma dict_deser_safeF fmt P soft A fuel rq h :
   wf_app A = true -> dict_request_ok P rq -> dict_decode_head fmt P A rq = Ret h ->
   safeF (dict_deserialize P soft A fuel (fst (fst h)) (snd (fst h)) (snd h)).
 Proof.
-  intros WF Hr E. destruct h as [[c k] v]. simpl.
+  intros WF Hr E. destruct h as [[m k] v]. simpl.
   apply dict_deserialize_safeF; auto.
   destruct (dict_decode_head_safe fmt P A rq WF Hr) as [_ Hl]. eapply Hl; eauto.
 Qed.
@@ -142,10 +142,10 @@ Qed.
 
 (** enough fuel for every method's message class *)
 Definition fuel_fits (A : app) (fuel : nat) : bool :=
-  forallb (fun kv => fits A fuel (TRef (snd kv))) (a_methods A).
+  forallb (fun kv => fits A fuel (ms_ty (snd kv))) (a_methods A).
 
 Lemma fits_of_methods A fuel k c :
-  fuel_fits A fuel = true -> assoc k (a_methods A) = Some c -> fits A fuel (TRef c) = true.
+  fuel_fits A fuel = true -> assoc k (a_methods A) = Some c -> fits A fuel (ms_ty c) = true.
 Proof.
   unfold fuel_fits. intros F H. rewrite forallb_forall in F.
   induction (a_methods A) as [|[x v] r IH]; simpl in *; [discriminate|].
@@ -155,7 +155,7 @@ Proof.
 Qed.
 
 Lemma generate_method_contexts_fits A name fuel c :
-  fuel_fits A fuel = true -> generate_method_contexts A name = Ret c -> fits A fuel (TRef c) = true.
+  fuel_fits A fuel = true -> generate_method_contexts A name = Ret c -> fits A fuel (ms_ty c) = true.
 Proof.
   intros F. unfold generate_method_contexts, get_call_handles.
   destruct name as [nm|].
@@ -166,13 +166,13 @@ Proof.
 Qed.
 
 Lemma dict_decode_head_fits fmt P A rq fuel c k v :
-  fuel_fits A fuel = true -> dict_decode_head fmt P A rq = Ret (c, k, v) -> fits A fuel (TRef c) = true.
+  fuel_fits A fuel = true -> dict_decode_head fmt P A rq = Ret (c, k, v) -> fits A fuel (ms_ty c) = true.
 Proof.
   intros F. unfold dict_decode_head.
   destruct (dict_create_in_document P rq) as [doc|e x]; [|discriminate].
   cbn [rbind].
-  assert (Bad : @guard_raise (nat * jv * jv) g_dict_one_key true (Raise EValueError []) (Raise EValueError [])
-                = Ret (c, k, v) -> fits A fuel (TRef c) = true).
+  assert (Bad : @guard_raise (msig * jv * jv) g_dict_one_key true (Raise EValueError []) (Raise EValueError [])
+                = Ret (c, k, v) -> fits A fuel (ms_ty c) = true).
   { vm_compute. discriminate. }
   destruct doc as [| | | | | | |kv|]; try exact Bad.
   destruct kv as [|[k0 v0] [|]]; try exact Bad.
@@ -188,12 +188,18 @@ Theorem dict_fuel_sufficient fmt P soft A fuel rq :
 Proof.
   intros WF Hr F. unfold dict_server. apply server_run_good.
   - apply dict_decode_head_safe; auto.
-  - intros [[c k] v] E. simpl. unfold dict_deserialize. cbv zeta.
-    match goal with |- safe (if ?b then _ else _) => destruct b end; [|exact I].
-    apply doc_to_object_safe; auto.
-    + simpl. apply Nat.ltb_lt.
-      destruct (dict_decode_head_safe fmt P A rq WF Hr) as [_ Hl]. eapply Hl; eauto.
-    + eapply dict_decode_head_fits; eauto.
+  - intros [[m k] v] E. simpl. unfold dict_deserialize. cbv zeta.
+    match goal with |- context [if ?b then v else JNull] => set (doc := if b then v else JNull) end. clearbody doc.
+    destruct (dict_decode_head_safe fmt P A rq WF Hr) as [_ Hl].
+    pose proof (Hl _ _ _ E) as Wm.
+    pose proof (dict_decode_head_fits fmt P A rq fuel _ _ _ F E) as Fm.
+    pose proof (complex_of_wf A _ Wm) as Hc.
+    assert (G : safe (match ms_ty m with
+                      | TLeaf kd => leaf_from_dict_value P soft kd (ms_nillable m) doc
+                      | t => doc_to_object P soft A fuel t doc end)).
+    { destruct (ms_ty m); try (apply doc_to_object_safe; auto).
+      apply leaf_from_dict_value_safe. }
+    destruct (ms_bare m); [destruct doc; try exact G; exact I | exact G].
 Qed.
 
 (** ---- the user function runs only when nothing was raised at any stage ---- *)
@@ -227,6 +233,16 @@ Qed.
 
 Theorem get_out_object_guard e c : get_out_object_on_error e c = Escaped e c.
 Proof. reflexivity. Qed.
+
+(** ---- the charset of the Content-Type header ---- *)
+Definition CODEC_LOOKUP_RAISES := [ELookupError; ETypeError; EValueError].
+Theorem reconstruct_safe cl :
+  match cl with CLRaise e => mem_exn e CODEC_LOOKUP_RAISES = true | _ => True end ->
+  safe (reconstruct_wsgi_request cl).
+Proof.
+  destruct cl as [|e|[|]]; intros H; try conc.
+  destruct e; vm_compute in H; try discriminate H; conc.
+Qed.
 
 (** ---- what escapes when PyYAML itself fails with something that is no YAMLError ---- *)
 Theorem yaml_syntax_refuted :
